@@ -215,6 +215,10 @@ def owner_class(cfgname):
                 x = cfg["trait"]()
                 calls = None
 
+                def __len__(self):
+                    # a collection-like model: falsy while x is empty
+                    return len(self.__dict__.get("x", ()))
+
                 def _x_items_changed(self, ev):
                     self.calls.append("static")
         Owner.__name__ = "Owner_" + cfgname
@@ -751,6 +755,10 @@ def cases(cfgname, tier, light=False):
             # whole-value assignment
             for pl in payloads(cfg["dom"], 3 if not light else 2):
                 yield st, "assign", ("assign", pl)
+                if not light:
+                    # the same items carried by a detached deep copy of the
+                    # trait's own value (the "working copy" idiom)
+                    yield st, "assign", ("assign", pl, "detached")
     elif cfg["kind"] == "dict":
         for st in dict_states(cfg["kdom"], cfg["vdom"]):
             for op in dict_ops(cfg["kdom"], cfg["vdom"], light):
@@ -808,6 +816,13 @@ def assign_step(ctx, live, cfgname, op):
         must = "item"
     raw = [list(dom.raw[t]) if isinstance(dom.raw[t], list) else dom.raw[t]
            for t in op[1]]
+    if len(op) > 2:
+        import copy
+        carrier = copy.deepcopy(old)
+        if isinstance(carrier, list):
+            list.clear(carrier)
+            list.extend(carrier, raw)       # unvalidated, as on a detached copy
+            raw = carrier
     try:
         live.o.x = raw
         exc = None
@@ -815,7 +830,9 @@ def assign_step(ctx, live, cfgname, op):
         exc = e
 
     def bad(kind, msg):
-        ctx.violation("C04:%s:%s:assign" % (kind, cfgname), msg,
+        ctx.violation("C04:%s:%s:assign%s" % (kind, cfgname,
+                                              ":detached" if len(op) > 2
+                                              else ""), msg,
                       config=cfgname, path="assign", op=op,
                       observed={"exc": exc and type(exc).__name__,
                                 "after": plain(live.o.x)})
@@ -881,9 +898,9 @@ def run_shard(ctx, shard, tier):
         if tier == "quick" and len(st) > 1:
             continue
         live = Live(cfgname, install_value(cfg, st))
-        nviol = len(ctx.violations)
+        nviol = ctx.nviol
         run_case(ctx, cfgname, live, path, op1)
-        if len(ctx.violations) != nviol:
+        if ctx.nviol != nviol:
             continue
         # second operations are those enabled in the *reached* state shape
         n_after = len(live.o.x)
